@@ -24,10 +24,10 @@ CONSTRUCTORS = ['enrich_with_transformations', 'compute_expanded_multivalue_feat
 
 def plan(tier, seed):
     shards = []
-    k = 8 if tier == 'quick' else 14
+    k = 8 if tier == 'quick' else 32
     for i in range(k):
         shards.append({'name': 'flags-%d' % i, 'fn': 'shard_flags', 'args': {'part': i, 'parts': k}})
-    d = 3 if tier == 'quick' else 8
+    d = 3 if tier == 'quick' else 20
     for i in range(d):
         shards.append({'name': 'direct-%d' % i, 'fn': 'shard_direct', 'args': {'part': i}})
     return shards
@@ -185,7 +185,7 @@ def shard_flags(sh, part, parts):
     import random
     random.Random(sh.seed).shuffle(jobs)
     mine = jobs[part::parts]
-    reps = 3 if sh.tier == 'quick' else 20
+    reps = 3 if sh.tier == 'quick' else 50
     for (tr_, mv_, sub_, inter_, noise_), heuristic in mine:
         n = rng.choice([24, 64])
         for rep in range(reps):   # equally sized consecutive batches in one process
